@@ -32,6 +32,16 @@ def init_arity(func):
 
 
 def is_fresh(e):
+    """True: a new object; False: it may BE (a view of / an alias of) state of `self`; None: unknown.  The may-alias judgement is
+    the engine's (alias.roots2): `self._coord.view()`, `np.asarray(self._coord)`, `x.astype(t, copy=False)`, `self._a or None`,
+    `[self._a][0]` all may be the original's own object"""
+    from . import alias as _alias
+    try:
+        same, _held = _alias.roots2(e)
+    except Exception:
+        same = set()
+    if any(o == "self" or o.startswith("self.") for o in same):
+        return False
     if isinstance(e, ast.Call):
         cn = call_name(e)
         last = (cn or "").split(".")[-1]
@@ -128,8 +138,14 @@ def check(ctx, idx, classes, rule, immutable=None, helper_methods=()):
                 passed = [(tparams[k], a) for k, a in enumerate(call.args) if k < len(tparams) and not isinstance(a, ast.Starred)]
                 passed += [(k.arg, k.value) for k in call.keywords if k.arg]
                 for pn, a in passed:
-                    if not (isinstance(a, ast.Attribute) and isinstance(a.value, ast.Name) and a.value.id == "self"):
+                    if is_fresh(a) is not False:
                         continue            # a call (`self._root.copy()`) or a literal: already a new object
+                    # (anything that may BE the original's own state counts: `self.f`, `self.f or None`, `[self.f][0]`)
+                    a_attr = next((x.attr for x in ast.walk(a) if isinstance(x, ast.Attribute) and isinstance(x.value, ast.Name) and x.value.id == "self"), "?")
+
+                    class _A:
+                        attr = a_attr
+                    a = _A
                     if (cls, a.attr) in immutable or (cls, pn) in immutable:
                         continue
                     n += 1
@@ -161,7 +177,7 @@ def check(ctx, idx, classes, rule, immutable=None, helper_methods=()):
             funcs.append((f"{cls}.__copy_create__", ci.methods["__copy_create__"], None))
         for qual, f, clone in funcs:
             for st in stmts(f):
-                if clone and isinstance(st, (ast.Assign, ast.AugAssign)):
+                if clone and isinstance(st, (ast.Assign, ast.AugAssign, ast.AnnAssign)) and getattr(st, "value", None) is not None:
                     targets = st.targets if isinstance(st, ast.Assign) else [st.target]
                     for t in targets:
                         root = t
